@@ -184,6 +184,12 @@ def run_repeat(case):
             np.random.random(int(1 + k))  # whatever else the process does with the global generator in between
             res.count("pipeline_runs")
             outs.append(o)
+            if k == 0:
+                # ... and with mokapot itself: other data of the same shape written to the same path and analysed with
+                # another fold count, then the file restored byte for byte (module-level caches must not carry over)
+                from vf.instruments import pipeline
+                if pipeline.history_prelude(spec["paths"], spec["folds"], case["seed"] + case["group"]):
+                    res.count("history_preludes_completed")
         res["meta"] = meta
         if outs[0]["status"] != "ok":
             if all(o["status"] != "ok" and o.get("sig") == outs[0].get("sig") for o in outs):
